@@ -4,7 +4,7 @@
 # (2) the repository's own suite passes with it, (3) the demonstration passes without it and fails with it.
 # On success copies patch.diff, demo, notes into /verif/seeded/<seed-name>/ and writes meta.json.
 set -u
-SRC=$1; NAME=$2; PROP=$3
+SRC=$1; NAME=$2; PROP=$3; XF=${4:-}
 export GOFLAGS=-mod=mod GOPROXY=off GOSUMDB=off GOTOOLCHAIN=local
 WT=/tmp/vseed-$NAME
 git -C /repo worktree remove --force $WT 2>/dev/null
@@ -12,11 +12,11 @@ git -C /repo worktree add --detach $WT HEAD -q || exit 2
 trap 'git -C /repo worktree remove --force '$WT' 2>/dev/null' EXIT
 mkdir -p $WT/unittest/seed_demo && cp -r $SRC/demo/* $WT/unittest/seed_demo/
 cd $WT
-go test -vet=off -count=1 ./unittest/seed_demo/... >/tmp/vseed-$NAME.without.log 2>&1; W0=$?
+go test $XF -vet=off -count=1 ./unittest/seed_demo/... >/tmp/vseed-$NAME.without.log 2>&1; W0=$?
 git apply $SRC/patch.diff || { echo "PATCH DOES NOT APPLY"; exit 1; }
 go build ./... || { echo "BUILD FAILS"; exit 1; }
 go test -vet=off -count=1 $(go list ./... | grep -v seed_demo) >/tmp/vseed-$NAME.suite.log 2>&1; S=$?
-go test -vet=off -count=1 ./unittest/seed_demo/... >/tmp/vseed-$NAME.with.log 2>&1; W1=$?
+go test $XF -vet=off -count=1 ./unittest/seed_demo/... >/tmp/vseed-$NAME.with.log 2>&1; W1=$?
 echo "demo without change: exit $W0; suite with change: exit $S; demo with change: exit $W1"
 if [ $W0 = 0 ] && [ $S = 0 ] && [ $W1 != 0 ]; then
   D=/verif/seeded/$NAME; mkdir -p $D/demo
